@@ -331,6 +331,8 @@ func TestVerifWire(t *testing.T) {
 				}
 			}
 			cb.Close()
+		} else {
+			t.Fatalf("cannot connect to the pool under test: %v", err) // the harness's failure, not a verdict
 		}
 		waitEmpty()
 		emit(map[string]interface{}{"fn": "conns", "left": left, "sent": sent, "delivered": delivered})
